@@ -13,6 +13,12 @@ def call(d, a, pals, form="direct"):
     op = a["op"]
     if op in ("filter", "filter_out"):
         mask = np.array(a["mask"], dtype=bool)
+        if form == "objmask":           # boolean-valued but not of bool dtype (e.g. a column that held a missing value)
+            mask = np.array(a["mask"], dtype=object)
+        elif form == "intmask":
+            mask = np.array([int(x) for x in a["mask"]])
+        elif form == "listmask":
+            mask = [bool(x) for x in a["mask"]]
         arg = (lambda x: mask) if form == "callable" else mask
         return getattr(d, op)(arg)
     if op in ("filter_kv", "filter_out_kv"):
@@ -157,7 +163,7 @@ def run_machine(ctx, which, ops, trace_module="FrameOpsTrace"):
                 if not supported(fr, a, pals):
                     ctx.skip("kv value not representable in the chosen palette")
                     continue
-                forms = ["direct", "callable"] if a["op"] in ("filter", "filter_out") else \
+                forms = ["direct", "callable", rng.choice(["objmask", "intmask", "listmask"])] if a["op"] in ("filter", "filter_out") else \
                     (["direct", "range"] if a["op"] in ("slice", "slice_off") else ["direct"])
                 for form in forms:
                     rec = execute(fr, a, pals, form)
